@@ -299,23 +299,73 @@ func init() {
 					}
 					return false
 				}
-				exceeded := fc.edgesImplying(func(a LitAtom) bool {
-					be, ok := ast.Unparen(a.E).(*ast.BinaryExpr)
-					if !ok {
+				// edges on which the counter is known to exceed (want) / not to exceed (!want) the limit
+				limitEdges := func(g *FCFG, isLim func(ast.Expr) bool, want bool) []cfgEdge {
+					return g.edgesImplying(func(a LitAtom) bool {
+						be, ok := ast.Unparen(a.E).(*ast.BinaryExpr)
+						if !ok {
+							return false
+						}
+						switch {
+						case isLim(be.Y) && (be.Op == token.GTR || be.Op == token.GEQ):
+							return a.Positive == want
+						case isLim(be.X) && (be.Op == token.LSS || be.Op == token.LEQ):
+							return a.Positive == want
+						case isLim(be.Y) && (be.Op == token.LEQ || be.Op == token.LSS):
+							return a.Positive != want
+						case isLim(be.X) && (be.Op == token.GEQ || be.Op == token.GTR):
+							return a.Positive != want
+						}
 						return false
+					})
+				}
+				exceeded := limitEdges(fc, isLimit, true)
+				// the test may live in a checker helper: `if lerr := env.checkDepth(n); lerr != nil { return lerr }`
+				// bounds the loop as the comparison written out would, provided the helper hands back nil
+				// only across an edge on which the limit is NOT exceeded
+				seenLocal := map[types.Object]bool{}
+				for _, b := range fc.G.Blocks {
+					cond := fc.CondOf(b)
+					if !fc.Live(b) || cond == nil {
+						continue
 					}
-					switch {
-					case isLimit(be.Y) && (be.Op == token.GTR || be.Op == token.GEQ):
-						return a.Positive
-					case isLimit(be.X) && (be.Op == token.LSS || be.Op == token.LEQ):
-						return a.Positive
-					case isLimit(be.Y) && (be.Op == token.LEQ || be.Op == token.LSS):
-						return !a.Positive
-					case isLimit(be.X) && (be.Op == token.GEQ || be.Op == token.GTR):
-						return !a.Positive
-					}
-					return false
-				})
+					ast.Inspect(cond, func(n ast.Node) bool {
+						id, ok := n.(*ast.Ident)
+						if !ok {
+							return true
+						}
+						o, ok := info.Uses[id].(*types.Var)
+						if !ok || seenLocal[o] || o.IsField() {
+							return true
+						}
+						seenLocal[o] = true
+						dc, idx, ndefs := definingCall(info, fd.Body, o)
+						if dc == nil || ndefs != 1 {
+							return true
+						}
+						h := originOf(Callee(info, dc))
+						if h == nil || c.declOf[h] == nil {
+							return true
+						}
+						hinfo := c.pkgOf[c.declOf[h]].TypesInfo
+						hbody := c.declOf[h].Body
+						hIsLimit := func(e ast.Expr) bool {
+							if ce, ok := ast.Unparen(e).(*ast.CallExpr); ok && originOf(Callee(hinfo, ce)) == mm {
+								return true
+							}
+							if ho := identObj(hinfo, e); ho != nil {
+								if hdc, _, n := definingCall(hinfo, hbody, ho); hdc != nil && n == 1 && originOf(Callee(hinfo, hdc)) == mm {
+									return true
+								}
+							}
+							return false
+						}
+						if c.nilOnlyBehind(h, idx, func(hfc *FCFG) []cfgEdge { return limitEdges(hfc, hIsLimit, false) }) {
+							exceeded = append(exceeded, fc.nilEdges(o, false)...)
+						}
+						return true
+					})
+				}
 				testBlocks := map[*cfg.Block]bool{}
 				okRet := len(exceeded) > 0
 				for _, e := range exceeded {
@@ -446,25 +496,77 @@ func init() {
 					}
 					for i, n := range b.Nodes {
 						if e, ok := n.(ast.Expr); ok {
-							ast.Inspect(e, func(m ast.Node) bool {
-								be, ok := m.(*ast.BinaryExpr)
-								if !ok {
-									return true
-								}
+							// comparisons are read with their polarity: `!(n <= limit)` is `n > limit`
+							for _, be := range cmpAtomsOf(e) {
 								switch {
 								case isLimit(be.Y) && (be.Op == token.GTR || be.Op == token.GEQ):
 									counter, strict = identObj(info, be.X), be.Op == token.GTR
 								case isLimit(be.X) && (be.Op == token.LSS || be.Op == token.LEQ):
 									counter, strict = identObj(info, be.Y), be.Op == token.LSS
 								default:
-									return true
+									continue
 								}
 								testLoc, haveT = Loc{b, i}, true
-								return true
-							})
+							}
 						}
 						if c.nodeCallsVia(info, n, s.via) != nil && !haveE {
 							expLoc, haveE = Loc{b, i}, true
+						}
+					}
+				}
+				if !haveT {
+					// the comparison may be written in a checker helper that receives the counter:
+					// `env.checkMacroReexpansion(macroDepth)` with `depth > MaxMacroExpansions()` inside
+					for _, b := range fc.G.Blocks {
+						if !fc.Live(b) || haveT {
+							continue
+						}
+						for i, n := range b.Nodes {
+							for _, ce := range callsIn(n, false) {
+								h := originOf(Callee(info, ce))
+								if h == nil || c.declOf[h] == nil || c.declOf[h].Body == nil || haveT {
+									continue
+								}
+								hd := c.declOf[h]
+								hinfo := c.pkgOf[hd].TypesInfo
+								hIsLimit := func(e ast.Expr) bool {
+									if hce, ok := ast.Unparen(e).(*ast.CallExpr); ok && originOf(Callee(hinfo, hce)) == mm {
+										return true
+									}
+									if ho := identObj(hinfo, e); ho != nil {
+										if hdc, _, n := definingCall(hinfo, hd.Body, ho); hdc != nil && n == 1 && originOf(Callee(hinfo, hdc)) == mm {
+											return true
+										}
+									}
+									return false
+								}
+								sig := h.Type().(*types.Signature)
+								ast.Inspect(hd.Body, func(m ast.Node) bool {
+									be, ok := m.(*ast.BinaryExpr)
+									if !ok || haveT {
+										return true
+									}
+									var po types.Object
+									var st bool
+									switch {
+									case hIsLimit(be.Y) && (be.Op == token.GTR || be.Op == token.GEQ):
+										po, st = identObj(hinfo, be.X), be.Op == token.GTR
+									case hIsLimit(be.X) && (be.Op == token.LSS || be.Op == token.LEQ):
+										po, st = identObj(hinfo, be.Y), be.Op == token.LSS
+									default:
+										return true
+									}
+									for k := 0; k < sig.Params().Len() && k < len(ce.Args); k++ {
+										if sig.Params().At(k) == po {
+											if ao := identObj(info, ce.Args[k]); ao != nil {
+												counter, strict = ao, st
+												testLoc, haveT = Loc{b, i}, true
+											}
+										}
+									}
+									return true
+								})
+							}
 						}
 					}
 				}
